@@ -96,6 +96,8 @@ def run_impl(names, ops):
                 clock.queue = [clock.now + 7, clock.now + 7 + dur]
                 seen.update(mode=mode, tok=tok, args=None)
                 args = (tok, 'x', [dur]); kwargs = {'k': i, 'flag': None}
+                if (tok + dur) % 3 == 0:
+                    kwargs.update(sync=False, name='n', func=None, average=True)
                 try:
                     r = fns[i](*args, **kwargs)
                     if mode != 'ret' or r is not objs[tok]:
